@@ -90,7 +90,7 @@ Print Assumptions C05_commands_as_sent.
    and the stream really is encrypting. *)
 Theorem C05_resumption_restores : forall en s c cs,
   resume en s c = Some cs ->
-  e_key en = KAes /\
+  e_client en = false /\ e_key en = KAes /\
   n_cmd (cs_neg cs) = c /\ n_sid (cs_neg cs) = s /\
   n_authn (cs_neg cs) = e_authn en /\ n_user (cs_neg cs) = e_user en /\
   n_valid (cs_neg cs) = e_valid en /\
@@ -102,6 +102,21 @@ Print Assumptions C05_resumption_restores.
 Theorem C05_resumption_needs_key : forall en s c, e_key en <> KAes -> resume en s c = None.
 Proof. exact resume_needs_key. Qed.
 Print Assumptions C05_resumption_needs_key.
+
+(* Role separation in a cache shared by the client and the server half of one process
+   (defect found by the hypothesis audit, fixed in /repo e854428): the record the client
+   half stores for a session negotiated with ANOTHER server is never resumed for an inbound
+   connection, and never replaces a server-side record -- so C05_dispatch_real needs no
+   hypothesis about what other servers told this process (EClientRecord events are free). *)
+Theorem C05_client_record_not_resumed : forall en s c, e_client en = true -> resume en s c = None.
+Proof. exact resume_refuses_client_record. Qed.
+Print Assumptions C05_client_record_not_resumed.
+
+Theorem C05_client_store_inert : forall k s e s' en,
+  cache_lookup (client_store k s e) s' = Some en ->
+  e_client en = true \/ cache_lookup k s' = Some en.
+Proof. exact client_store_inert. Qed.
+Print Assumptions C05_client_store_inert.
 
 (* ValidCommands is limited to authenticated commands this very session could
    run right now. *)
@@ -166,7 +181,7 @@ Example C05_real_needs_faithful_entries :
   exists evs i, In i (history_invocations [] evs) /\ i_rawpath i = false /\
                 requires_authn (policy_now i) = true /\ i_auth_real i = false.
 Proof.
-  exists [ EImport 1%N {| e_key := KAes; e_authn := true; e_user := 2%N; e_valid := [1005%Z]; e_auth_real := false |};
+  exists [ EImport 1%N {| e_key := KAes; e_authn := true; e_user := 2%N; e_valid := [1005%Z]; e_client := false; e_auth_real := false |};
            EConn {| c_srv := ex_srv None; c_peer := 1%N; c_first := Some DC_AUTHENTICATE;
                     c_hs := HsResume 1%N (Some 1005%Z) true; c_steps := [] |} ].
   eexists. split; [vm_compute; left; reflexivity|]. vm_compute. auto.
@@ -177,7 +192,7 @@ Qed.
    current authorizer denies the identity, nothing runs and the connection is refused. *)
 Example C05_stored_valid_commands_do_not_authorize :
   run_history []
-    [ EImport 1%N {| e_key := KAes; e_authn := true; e_user := 2%N; e_valid := [1005%Z]; e_auth_real := true |};
+    [ EImport 1%N {| e_key := KAes; e_authn := true; e_user := 2%N; e_valid := [1005%Z]; e_client := false; e_auth_real := true |};
       EConn {| c_srv := ex_srv (Some (fun _ _ _ => false)); c_peer := 1%N; c_first := Some DC_AUTHENTICATE;
                c_hs := HsResume 1%N (Some 1005%Z) true; c_steps := [] |} ]
   = [([DRefuse 1005%Z RNotSatisfied], EClosedErr)].
